@@ -274,6 +274,20 @@ def outcopy(prog, res, cfg, unit):
                                                 "hand-over copy does not pair one output vector with one tested vector at the same index: %s" % show(c)))
             else:
                 res.sample({"obligation": "%s: %s" % (name, show(c)), "verdict": "parameter %d <- parameter %d, same index" % (d, s)})
+        # ... and nothing but those copies writes an element of an output vector: a store through another GMP routine (mpq_neg, mpq_mul ...)
+        # hands out a vector that is not the tested one
+        outs = {d for d, _s in src_of.items()}
+        for b, i, c in f.calls():
+            nm = callee(c) or ""
+            if nm == "mpq_set" or not c[3]:
+                continue
+            d = strip(c[3][0])
+            if isinstance(d, list) and d and d[0] == "i" and is_var(d[1], kind="p") and int(strip(d[1])[1][1:]) in outs \
+                    and nm.startswith(("mpq_", "__gmpq_", "mpz_")) and not nm.startswith(("mpq_cmp", "mpq_equal", "mpq_sgn", "mpq_get", "mpq_EGlpNumToLf")):
+                res.obligations += 1
+                res.violations.append(Violation("R-OUTCOPY", "%s|%s" % (name, show(c)[:50]), name, short_loc(c[4]),
+                                                "%s writes an element of an output vector of the hand-over function by something else than a copy of the tested "
+                                                "vector: what the caller receives is not what the exact test accepted" % show(c)[:70]))
         res.floor("mpq_set copies in %s" % name, n, 2 if kind == OPT else 1)
 
 
